@@ -164,6 +164,9 @@ def gamma2(tier, seed):
             out.append({"id": f"g2/{kind}/leading", "doc": doc_of([mk(2), "ret"]), "feature": feat})
     # full-match flags do not interact with repetition
     out.append({"id": "g2/item/fm", "doc": doc_of(["push", {"mov": ["a"], "times": {"min": 0, "max": 2}}, "ret"], True, True), "feature": "times_item_sib"})
+    for mf, of in ((True, False), (False, True)):
+        out.append({"id": f"g2/item/fm/{ftag(mf,of)}", "doc": doc_of(["push", {"mov": {"times": 2}}, {"mov": ["a"], "times": {"min": 1, "max": 2}}, "ret"], mf, of), "feature": "times_item_flags"})
+        out.append({"id": f"g2/or/fm/{ftag(mf,of)}", "doc": doc_of(["push", {"$or": ["mov", {"add": ["a"]}], "times": 2}, "ret"], mf, of), "feature": "times_or"})
     return out
 
 
@@ -313,6 +316,8 @@ def gamma4(tier, seed):
         ("only", [{"$not": ["a"]}]),
     ):
         out.append({"id": f"g4/operand/{pos}", "doc": doc_of([{"mov": ops}, "call"]), "feature": "not_operand"})
+    for nm, arg in (("or", {"$or": ["a", "b"]}), ("notnot", {"$not": ["a"]}), ("and_any", {"$and_any_order": ["a"]})):
+        out.append({"id": f"g4/operand_group/{nm}", "doc": doc_of([{"mov": [{"$not": [arg]}, "c"]}, "call"]), "feature": "not_operand_group"})
     with_twin(out[1], out[1]["doc"]["pattern"])
     with_twin(out[2], out[2]["doc"]["pattern"])
     return out
